@@ -2087,6 +2087,11 @@ func (l *LabeledIPAddrPrefix) decodeFromBytes(data []byte, addrlen int, options 
 		return err
 	}
 
+	// fewer than 3 octets left: no label at all was read, whatever follows
+	// the NLRI in the attribute must not change that verdict.
+	if len(l.Labels.Labels) == 0 {
+		return NewMessageError(BGP_ERROR_UPDATE_MESSAGE_ERROR, BGP_ERROR_SUB_MALFORMED_ATTRIBUTE_LIST, nil, "LabeledIPAddrPrefix without a label")
+	}
 	if bits-8*l.Labels.Len() < 0 {
 		return NewMessageError(BGP_ERROR_UPDATE_MESSAGE_ERROR, BGP_ERROR_SUB_MALFORMED_ATTRIBUTE_LIST, nil, "LabeledIPAddrPrefix declared length too short for label stack")
 	}
